@@ -23,7 +23,7 @@ case "$G" in
   *) echo "unknown group"; exit 2;;
 esac
 cd "$SRC"
-FILES=$(for pat in $OWN; do for f in $pat; do [ -e "$f" ] && find "$f" -type f ! -name '*.vo' ! -name '*.vok' ! -name '*.vos' ! -name '*.glob' ! -name '.*.aux' ! -name '.lia.cache' ! -name '.nia.cache'; done; done | sort -u)
+FILES=$(for pat in $OWN; do for f in $pat; do if [ -e "$f" ]; then find "$f" -type f ! -name '*.vo' ! -name '*.vok' ! -name '*.vos' ! -name '*.glob' ! -name '.*.aux' ! -name '.lia.cache' ! -name '.nia.cache'; fi; done; done | sort -u)
 for f in $FILES; do
   if [ ! -f "/verif/$f" ] || ! cmp -s "$f" "/verif/$f"; then
     echo "$f"
